@@ -121,3 +121,35 @@ class ApplyFlagsC(_NoView):
 
 
 CONTRACTS = [ReShuffleFwdC(), LocalShuffleFwdC(), CatchFwdC(), CycleFwdC(), CacheFlagsC(), BucketFlagsC(), ApplyFlagsC()]
+
+
+# ---- stages whose number of examples is not known without iterating: they offer no length (TypeError); a length that
+#      is offered must be the number of examples iteration yields (C02, second sentence) -- the count is an arbitrary
+#      unknown here, so any value computed from the input's length alone is refuted
+def _no_cheap_length(S, o):
+    if o.kind == 'raise':
+        return [('C02:a-stage-of-unknown-size-refuses-len-with-TypeError', exc_is(o.exc, S.eng.hier, 'TypeError'))]
+    if o.kind == 'return' and isinstance(o.value, IntV):
+        return [('C02:an-offered-length-is-the-number-of-examples-iteration-yields',
+                 o.value.t == smt.fresh('number_of_yielded_examples', smt.Int))]
+    return [('C02:len-outcome', smt.F)]
+
+
+def _mk_nolen(cls, extra=None):
+    class C(_NoView):
+        pass
+    C.cls = cls
+    C.fields = _input_fields(extra)
+    C.methods = {'__len__': [Variant('no-cheap-length', post=_no_cheap_length, props=('C02',))]}
+    C.__name__ = cls + 'NoLenC'
+    return C()
+
+
+CONTRACTS += [
+    _mk_nolen('ApplyDataset', lambda e, s: {'apply_function': FnV(smt.fresh('apply_fn', smt.Fn))}),
+    _mk_nolen('FilterDataset', lambda e, s: {'filter_function': FnV(smt.fresh('filter_fn', smt.Fn))}),
+    _mk_nolen('CatchExceptionDataset', lambda e, s: {'exceptions': ExcSpecV(smt.fresh('exceptions', smt.Obj)),
+                                                     'warn': BoolV(smt.fresh('warn', smt.Bool))}),
+    _mk_nolen('UnbatchDataset'),
+    _mk_nolen('DynamicBucketDataset'),
+]
